@@ -469,7 +469,7 @@ class Budget(Exception):
 
 class Interp:
     def __init__(self, facts, policy=None, models=None, max_paths=20000, max_depth=12, loop_bound=2,
-                 dyn_impl=None, follow_log=False):
+                 dyn_impl=None, follow_log=False, self_impl=None):
         self.facts = facts
         self.policy = policy or (lambda callee, args: "inline")
         self.models = dict(DEFAULT_MODELS)
@@ -479,6 +479,7 @@ class Interp:
         self.max_depth = max_depth
         self.loop_bound = loop_bound
         self.dyn_impl = dyn_impl or {}
+        self.self_impl = self_impl or {}  # calls on Self inside a trait's default body (not virtual calls)
         self.follow_log = follow_log
         self.explore_callbacks = True
         self.npaths = 0
@@ -1283,6 +1284,8 @@ class Interp:
             target = None
             if c.resolved and c.resolved_local and c.ikind in ("item", "closure_once_shim", "fnptr_shim", "reify_shim"):
                 target = self.facts.bodies.get(c.resolved)
+            elif c.ikind != "virtual" and not c.resolved and c.path in self.self_impl:
+                target = self.facts.bodies.get(self.self_impl[c.path])
             elif c.ikind == "virtual" and c.path in self.dyn_impl:
                 target = self.facts.bodies.get(self.dyn_impl[c.path])
             elif c.path and c.path in self.dyn_impl:
